@@ -162,11 +162,47 @@ pub fn judge(inst: &Instance, hist: &[Act], r: &RunResult) -> Vec<(String, Strin
             }
             let user: Vec<Vec<u8>> = ops.iter().flatten().filter_map(|p| codec.encode(p).ok().map(|b| b.to_vec())).collect();
             let pg = pong(inst.compressed);
+            // write calls the caller dropped: (index among the writes, index among all calls)
+            let mut dropped_writes: Vec<(usize, u32)> = vec![];
+            {
+                let mut wn = 0usize;
+                for (ci, (is_read, cancelled)) in r.call_log.iter().enumerate() {
+                    if !*is_read {
+                        if *cancelled {
+                            dropped_writes.push((wn, ci as u32));
+                        }
+                        wn += 1;
+                    }
+                }
+            }
             let mut o = 0usize;
             let mut u = 0usize;
             let mut pongs = 0usize;
             let mut partial_pong = false;
+            let mut complete_ok = 0usize;
             while o < r.written.len() {
+                // a packet whose write() the caller dropped: what reached the wire of it is whatever
+                // was accepted during that call from here on (a prefix of its frame, possibly empty)
+                if let Some((_, ci)) = dropped_writes.iter().find(|(wn, _)| *wn == u) {
+                    if u < user.len() && r.written[o] == user[u][0] && r.written[o] != pg[0] {
+                        let mut k = 0usize;
+                        while o + k < r.written.len() && r.stamps.get(o + k) == Some(ci) && k < user[u].len() {
+                            k += 1;
+                        }
+                        if r.written[o..o + k] != user[u][..k] {
+                            out.push(("torn-or-foreign-frame-on-the-wire".into(), format!("outbound bytes {}: the {k} byte(s) accepted during the dropped write are not a prefix of its frame", crate::report::hex(&r.written))));
+                            return out;
+                        }
+                        o += k;
+                        u += 1;
+                        continue;
+                    }
+                    if r.written[o] == pg[0] && !r.stamps[o..].iter().any(|st| st == ci) {
+                        // nothing of the dropped packet reached the wire
+                        u += 1;
+                        continue;
+                    }
+                }
                 let n = if inst.compressed { r.written[o] as usize * 4 } else { r.written[o] as usize };
                 let rest = &r.written[o..];
                 if n >= 4 && rest.len() >= n {
@@ -174,6 +210,9 @@ pub fn judge(inst: &Instance, hist: &[Act], r: &RunResult) -> Vec<(String, Strin
                     if f == pg {
                         pongs += 1;
                     } else if u < user.len() && f == &user[u][..] {
+                        if !dropped_writes.iter().any(|(wn, _)| *wn == u) {
+                            complete_ok += 1;
+                        }
                         u += 1;
                     } else {
                         out.push(("torn-or-foreign-frame-on-the-wire".into(), format!("outbound bytes {} contain {} at offset {o}, which is neither a keep-alive reply nor the next packet written ({})", crate::report::hex(&r.written), crate::report::hex(f), user.get(u).map(|x| crate::report::hex(x)).unwrap_or_default())));
@@ -200,8 +239,8 @@ pub fn judge(inst: &Instance, hist: &[Act], r: &RunResult) -> Vec<(String, Strin
                 out.push(("unsolicited-or-duplicate-reply".into(), format!("{} keep-alive(s) received, {pongs} complete repl(ies) (+ partial: {partial_pong}) on the wire", ka.len())));
                 return out;
             }
-            if u < writes_ok {
-                out.push(("write-returned-before-frame-complete".into(), format!("{writes_ok} write(s) returned Ok, {u} complete frame(s) of them on the wire")));
+            if complete_ok < writes_ok {
+                out.push(("write-returned-before-frame-complete".into(), format!("{writes_ok} write(s) returned Ok, {complete_ok} complete frame(s) of them on the wire")));
                 return out;
             }
         },
